@@ -583,7 +583,7 @@ class Gen:
         return np.array(vals, dtype=complex if cplx else float).reshape(shape)
 
     def dim(self):
-        return self.rng.choice([0, 1, 1, 2, 2, 2, 3, 3, 3, 4])
+        return self.rng.choice([0, 1, 1, 2, 2, 2, 2, 3, 3, 3, 3, 3, 4, 4, 4, 5])
 
     def scal(self, cplx=None, nonzero=False):
         r = self.rng
@@ -617,7 +617,7 @@ class Gen:
     def uarg_pair(self, r_, c_, malformed=False):
         """(u, v, extra) descriptions for vectors of lengths r_ / c_"""
         r = self.rng
-        form = r.choice(['one', 'one', 'list', 'list', 'list', 'tuple', 'sym', 'none'])
+        form = r.choice(['one'] * 5 + ['list'] * 7 + ['tuple'] * 2 + ['sym'] * 2 + ['none'])
         if form == 'none':
             return None, None, {'omit_v': True, 'omit_u': r.random() < 0.5}
         if form == 'sym' and r_ == c_:
@@ -628,7 +628,7 @@ class Gen:
             ku = r.choice(['vec', 'vec', 'blk', 'blk3'])
             kv = r.choice(['vec', 'vec', 'blk'])
             return {'one': self.inarr(r_, ku)}, {'one': self.inarr(c_, kv)}, {}
-        k = r.randint(0, 3)
+        k = r.choice([0, 1, 1, 2, 2, 2, 3, 3])
         ul = [self.inarr(r_) for _ in range(k)]
         vl = [self.inarr(c_) for _ in range(k)]
         if malformed and r.random() < 0.5:
@@ -695,9 +695,10 @@ def gen_step(g, store, pool, malformed):
     """choose the next operation from the current implementation state"""
     r = g.rng
     live = [k for k, D in enumerate(store) if D is not None]
-    if not live or r.random() < 0.12:
+    if not live or r.random() < 0.07:
         return g.new_step(r.randint(0, min(len(store), 3)), malformed)
-    a = r.choice(live)
+    full = [k for k in live if store[k].n_dyads > 0]
+    a = r.choice(full) if full and r.random() < 0.8 else r.choice(live)
     D = store[a]
     R_, C_ = D.shape
     big = maxabs(D) > MAXABS
@@ -797,7 +798,7 @@ def gen_step(g, store, pool, malformed):
             st['fac'] = r.choice([-1, 2, -2, 1, 0])
         return st
     # fall-back: make a second carrier of the same shape so that binary operations become possible
-    if known and not malformed and len(live) < 4:
+    if known and not malformed and len(live) < 3:
         st = g.new_step(dst)
         u, v, extra = g.uarg_pair(R_, C_)
         st.update({'u': u, 'v': v, 'shape': [R_, C_] if r.random() < 0.5 or u is None else None})
